@@ -1,5 +1,84 @@
-(* STUB: Impl model of sdt.rs -- to be written *)
-From Coq Require Import NArith List.
+(* Impl model of sdt.rs: the user-defined generic table `Sdt` (a Vec<u8> with self-maintaining header).
+   Case vocabulary (component 31):
+     ctor (sig4 length revision oem6 tbl8 oem_revision)
+     ops  1                     observation: as_slice()
+          (1 w v)               append::<u8|u16|u32|u64>(v)       w = 1 2 4 8
+          (2 bytes)             append_slice(bytes)
+          (3 off bytes)         write_bytes(off, bytes)
+          (4 w off v)           write_u8/16/32/64(off, v)
+          (5 w v)               AmlSink::byte/word/dword/qword(v) w = 1 2 4 8
+          (6 bytes)             AmlSink::vec(bytes)
+          (7)                   update_checksum()
+     Every op reports one number: 0 = performed, 1 = refused (the call panicked; the harness catches it and goes on
+     with the same table, which must be unchanged). *)
+From Coq Require Import NArith List Bool.
 From ACPI Require Import Lib.Bytes Lib.Sx Lib.Machine Impl.Checksum Impl.Table Impl.Fields Impl.Run.
 Import ListNotations.
-Definition sdt_case (md : mode) (c : sx) : list ev := [EvPanic].
+Open Scope N_scope.
+
+(* update_checksum: data[9] = 0; data[9] = generate_checksum(data) *)
+Definition sdt_update_checksum (data : list N) : list N :=
+  let z := upd data 9 0 in upd z 9 (generate_checksum z).
+
+(* write_bytes(offset, bytes): assert!(offset + len <= data.len()); copy; update_checksum.
+   None = refused (before any mutation). In release the usize sum may wrap; the slice indexing then refuses. *)
+Definition sdt_write_bytes (md : mode) (data : list N) (off : N) (bytes : list N) : option (list N) :=
+  do e <- add_m md U64 off (N.of_nat (length bytes));
+  do _ <- assert (e <=? N.of_nat (length data));
+  do _ <- assert (off <=? e);
+  Some (sdt_update_checksum (write_at data (N.to_nat off) bytes)).
+
+(* append<T>(value): resize(new_length, 0); write_u32(4, new_length as u32); write(orig_length, value) *)
+Definition sdt_append (md : mode) (data : list N) (w : nat) (v : N) : option (list N) :=
+  let orig := length data in
+  let d1 := data ++ repeatN 0 w in
+  do d2 <- sdt_write_bytes md d1 4 (d4 (N.of_nat (orig + w)));
+  sdt_write_bytes md d2 (N.of_nat orig) (le w v).
+
+(* append_slice(bytes): write_u32(4, new_length as u32); extend_from_slice; update_checksum *)
+Definition sdt_append_slice (md : mode) (data : list N) (bytes : list N) : option (list N) :=
+  do d1 <- sdt_write_bytes md data 4 (d4 (N.of_nat (length data + length bytes)));
+  Some (sdt_update_checksum (d1 ++ bytes)).
+
+(* impl AmlSink for Sdt: byte(b) = append(b); word/dword/qword/vec fall back to byte per byte *)
+Fixpoint sdt_sink_vec (md : mode) (data : list N) (bytes : list N) : option (list N) :=
+  match bytes with
+  | [] => Some data
+  | b :: r => do d <- sdt_append md data 1 b; sdt_sink_vec md d r
+  end.
+
+Definition sdt_new (c : sx) : option (list N) :=
+  match c with
+  | SL [sg; SA len; SA rev; o; t; SA orev] =>
+      do sig <- sx_arr 4 sg; do oem <- sx_arr 6 o; do tb <- sx_arr 8 t;
+      do _ <- assert (36 <=? len);
+      let hdr := sig ++ d4 len ++ [cast U8 rev] ++ [0] ++ oem ++ tb ++ d4 orev ++ CREATOR_ID ++ CREATOR_REVISION in
+      Some (sdt_update_checksum (hdr ++ repeatN 0 (N.to_nat (cast U32 len) - 36)))
+  | _ => None
+  end.
+
+Definition width_ok (w : N) : option nat :=
+  match w with 1 => Some 1%nat | 2 => Some 2%nat | 4 => Some 4%nat | 8 => Some 8%nat | _ => None end.
+
+(* the effect of one op: Some (Some d) performed, Some None refused, None = malformed case *)
+Definition sdt_op (md : mode) (data : list N) (o : sx) : option (option (list N)) :=
+  match o with
+  | SL [SA 1; SA w; SA v] => do k <- width_ok w; Some (sdt_append md data k v)
+  | SL [SA 2; b] => do bytes <- sx_bytes b; Some (sdt_append_slice md data bytes)
+  | SL [SA 3; SA off; b] => do bytes <- sx_bytes b; Some (sdt_write_bytes md data off bytes)
+  | SL [SA 4; SA w; SA off; SA v] => do k <- width_ok w; Some (sdt_write_bytes md data off (le k v))
+  | SL [SA 5; SA w; SA v] => do k <- width_ok w; Some (sdt_sink_vec md data (le k v))
+  | SL [SA 6; b] => do bytes <- sx_bytes b; Some (sdt_sink_vec md data bytes)
+  | SL [SA 7] => Some (Some (sdt_update_checksum data))
+  | _ => None
+  end.
+
+Definition sdt_step (md : mode) (data : list N) (o : sx) : option (list N * list ev) :=
+  match sdt_op md data o with
+  | Some (Some d) => Some (d, [EvNum 0])
+  | Some None => Some (data, [EvNum 1])
+  | None => None
+  end.
+
+Definition sdt_case (md : mode) (c : sx) : list ev :=
+  run_history (fun d => Some d) (sdt_step md) sdt_new c.
